@@ -107,6 +107,9 @@ def run_beam(surface, nodes, sec, loads):
     return prob
 
 
+KRYLOV_PRECON = False     # with the LinearRunOnce preconditioner GMRES stagnates in forward mode on the unmodified code
+
+
 def build_aerostruct(surfaces, flows, nonlinear="nlbgs", linear="direct", aitken=True, mode="auto", struct_surfaces=None):
     """AerostructGeometry per surface + one AerostructPoint per flow (multipoint when several flows).  Tube or wingbox.
     flows: list of dicts(alpha, v, rho, Mach_number, re, load_factor, ...)"""
@@ -140,6 +143,9 @@ def build_aerostruct(surfaces, flows, nonlinear="nlbgs", linear="direct", aitken
         prob.model.add_subsystem(pn, pt)
         for k in ("v", "alpha", "beta", "Mach_number", "re", "rho", "speed_of_sound", "load_factor"):
             prob.model.connect(k + sfx, pn + "." + k)
+        if any(s.get("struct_weight_relief") or s.get("distributed_fuel_weight") or "n_point_masses" in s for s in surfaces):
+            # the inertia-relief loads inside the coupled group take the load factor through a separate promotion
+            prob.model.connect("load_factor" + sfx, pn + ".coupled.load_factor")
         for k in ("CT", "R", "W0", "empty_cg"):
             prob.model.connect(k, pn + "." + k)
         for s in surfaces:
@@ -172,10 +178,10 @@ def build_aerostruct(surfaces, flows, nonlinear="nlbgs", linear="direct", aitken
         else:
             coupled.nonlinear_solver = om.NonlinearBlockGS(use_aitken=aitken, maxiter=200, atol=1e-11, rtol=1e-13, iprint=-1)
         if linear == "lbgs":
-            coupled.linear_solver = om.LinearBlockGS(maxiter=500, atol=1e-14, rtol=1e-13, iprint=-1, err_on_non_converge=True)
+            coupled.linear_solver = om.LinearBlockGS(maxiter=300, atol=1e-12, rtol=1e-10, iprint=-1, err_on_non_converge=True, use_aitken=True)
         elif linear == "krylov":
-            coupled.linear_solver = om.ScipyKrylov(maxiter=2000, atol=1e-14, rtol=1e-13, iprint=-1, err_on_non_converge=True, restart=200)
-            coupled.linear_solver.precon = om.LinearRunOnce()
+            coupled.linear_solver = om.ScipyKrylov(maxiter=2000, atol=1e-12, rtol=1e-10, iprint=-1, err_on_non_converge=True, restart=200)
+            coupled.linear_solver.precon = om.LinearRunOnce() if KRYLOV_PRECON else None
         else:
             coupled.linear_solver = om.DirectSolver(assemble_jac=True)
     return prob
